@@ -17,6 +17,7 @@ type Val struct {
 	L  []Term
 	Fn *FuncVal // meta information for function values
 	P  *Loc     // meta information for pointers that are not plain root references
+	G  *GhostVar // ghost array value (T == nil): declared ghost variable being indexed
 }
 
 type FuncVal struct {
